@@ -557,7 +557,10 @@ def setsubj_rule(ctx, model):
                             elif allv and v in LEFTMOST_ALL:
                                 want = M(min(As, key=lambda i: (i["begin"], i["end"])))
                             elif v == "SameRange":
-                                want = M(min(As, key=lambda i: (i["begin"], i["end"]))) and M(max(As, key=lambda i: (i["end"], i["begin"])))
+                                # documented: the leftmost item of A begins where (the leftmost of) B begins and the rightmost of A ends where (the rightmost of) B ends
+                                rb = ref["begin"] if kind == "sel" else min(x["begin"] for x in ref)
+                                re_ = ref["end"] if kind == "sel" else max(x["end"] for x in ref)
+                                want = min(a["begin"] for a in As) == rb and max(a["end"] for a in As) == re_
                             else:
                                 want = all(M(a) for a in As)
                                 if v == "Equals" and kind == "set" and len(As) != len(ref):
@@ -580,7 +583,7 @@ def setsubj_rule(ctx, model):
                 r.unknown += 1
                 ctx.report(r, "uninterpretable:" + key, "%s cannot be evaluated with a set as subject for %r (%s): obligation not discharged" % (fset.qual, op, unknown), fset.file, fset.line)
             elif bad:
-                lifted = "its rightmost member" if (allv and v in RIGHTMOST_ALL) else "its leftmost member" if (allv and v in LEFTMOST_ALL) else "its leftmost and rightmost member" if v == "SameRange" else "every member"
+                lifted = "its rightmost member" if (allv and v in RIGHTMOST_ALL) else "its leftmost member" if (allv and v in LEFTMOST_ALL) else "the extent of the set (documented meaning of SameRange)" if v == "SameRange" else "every member"
                 ctx.report(r, key, "%r with the set %s as subject against %s%s gives %s; the member-level test lifted over %s%s gives %s" % (op, bad[0], bad[1], "" if bad[2] else " (gap not whitespace)", bad[3], lifted, ", negated" if neg else "", bad[4]), fset.file, fset.line,
                            {"op": repr(op), "subject": bad[0], "reference": bad[1]})
             else:
